@@ -301,6 +301,7 @@ theorem cfg_step (s : State) (op : Op) : (step s op).1.cap = s.cap ∧ (step s o
   cases op <;> simp only <;> (try split) <;> (try unfold stepLive) <;> (try simp only) <;>
     first
     | exact ⟨rfl, rfl⟩
+    | exact ⟨trivial, trivial⟩
     | exact hpush _ _
     | exact hthrow
     | exact hpop _
@@ -323,6 +324,108 @@ theorem perm_of_inv {s : State} (h : Inv s) : (s.inflight ++ s.completed).Perm s
 
 theorem mem_served_of_resolved {s : State} (h : Inv s) {e : Ev} (he : e ∈ s.inflight ++ s.completed) :
     e ∈ s.served := (perm_of_inv h).mem_iff.mp he
+
+/-- the bounded backing stores are never over-filled (their `emplace` would have thrown) -/
+structure CapInv (s : State) : Prop where
+  items_le : ∀ n, s.cap = some n → s.items.length ≤ n
+  waiters_le : ∀ n, s.wcap = some n → s.waiters.length ≤ n
+
+theorem capinv_init (cap wcap : Option Nat) : CapInv (initCfg cap wcap) := by
+  constructor <;> intro n _ <;> simp [initCfg]
+
+theorem capinv_pushC (s : State) (p v : Nat) (h : CapInv s) : CapInv (stepPushC s p v).1 := by
+  unfold stepPushC
+  split
+  · exact h
+  · rename_i hc
+    unfold stepPush
+    cases hw : s.waiters with
+    | nil =>
+      constructor
+      · intro n hn
+        have h1 := h.items_le n hn
+        have hf : itemsFull s = decide (n ≤ s.items.length) := by unfold itemsFull; rw [hn]
+        rw [hw, hf] at hc
+        simp at hc ⊢; omega
+      · intro n hn; have := h.waiters_le n hn; simp [hw] at this ⊢
+    | cons w ws =>
+      constructor
+      · intro n hn; exact h.items_le n hn
+      · intro n hn; have := h.waiters_le n hn; simp [hw] at this ⊢; omega
+
+theorem capinv_pushThrowC (s : State) (h : CapInv s) : CapInv (stepPushThrowC s).1 := by
+  unfold stepPushThrowC
+  split
+  · exact h
+  · unfold stepPushThrow
+    cases hw : s.waiters with
+    | nil => exact h
+    | cons w ws =>
+      constructor
+      · intro n hn; exact h.items_le n hn
+      · intro n hn; have := h.waiters_le n hn; simp [hw] at this ⊢; omega
+
+theorem capinv_popC (s : State) (c : Nat) (h : CapInv s) : CapInv (stepPopC s c).1 := by
+  unfold stepPopC
+  split
+  · exact h
+  · rename_i hc
+    unfold stepPop
+    cases hi : s.items with
+    | nil =>
+      constructor
+      · intro n hn; have := h.items_le n hn; simp [hi] at this ⊢
+      · intro n hn
+        have h1 := h.waiters_le n hn
+        have hf : waitersFull s = decide (n ≤ s.waiters.length) := by unfold waitersFull; rw [hn]
+        rw [hi, hf] at hc
+        simp at hc ⊢; omega
+    | cons x xs =>
+      constructor
+      · intro n hn; have := h.items_le n hn; simp [hi] at this ⊢; omega
+      · intro n hn; exact h.waiters_le n hn
+
+theorem capinv_upop (s : State) (c : Nat) (h : CapInv s) : CapInv (stepUpop s c).1 := by
+  unfold stepUpop
+  cases hw : s.waiters with
+  | nil => exact h
+  | cons w ws =>
+    constructor
+    · intro n hn; exact h.items_le n hn
+    · intro n hn; have := h.waiters_le n hn; simp [hw] at this ⊢; omega
+
+theorem capinv_destroy (s : State) (h : CapInv s) : CapInv (stepDestroy s).1 := by
+  unfold stepDestroy
+  constructor
+  · intro n hn; exact h.items_le n hn
+  · intro n hn; simp
+
+theorem capinv_deliver (s : State) (k : Nat) (h : CapInv s) : CapInv (stepDeliver s k).1 := by
+  unfold stepDeliver
+  split
+  · exact h
+  · exact ⟨h.items_le, h.waiters_le⟩
+
+theorem capinv_step (s : State) (op : Op) (h : CapInv s) : CapInv (step s op).1 := by
+  unfold step
+  cases op <;> simp only <;> (try split) <;> (try unfold stepLive) <;> (try simp only) <;>
+    first
+    | exact h
+    | exact capinv_pushC s _ _ h
+    | exact capinv_pushThrowC s h
+    | exact capinv_popC s _ h
+    | exact capinv_upop s _ h
+    | exact capinv_destroy s h
+    | exact capinv_deliver s _ h
+
+theorem capinv_run (s : State) (ops : List Op) (h : CapInv s) : CapInv (run s ops) := by
+  induction ops generalizing s with
+  | nil => exact h
+  | cons op ops ih => exact ih (step s op).1 (capinv_step s op h)
+
+theorem reachable_capinv {s : State} (h : Reachable s) : CapInv s := by
+  obtain ⟨cap, wcap, ops, rfl⟩ := h
+  exact capinv_run _ ops (capinv_init cap wcap)
 
 end Cocls.Q
 
